@@ -46,6 +46,17 @@ type PathCase struct {
 	Paths   []string `json:"paths"`         // image-root relative files / directories (all exist)
 	Exclude []string `json:"exclude_paths"` // image-root relative; no path lies inside or equals an exclude path
 	Image   string   `json:"image_format,omitempty"`
+
+	demotedNoSyntax int // observed: import files of the result that have no syntax statement and are workspace files
+}
+
+func (c *PathCase) countDemoted(vs []fileView) {
+	c.demotedNoSyntax = 0
+	for _, v := range vs {
+		if v.IsImport && v.NoSyntax && c.Src.moduleOf(v.Path) != "" {
+			c.demotedNoSyntax++
+		}
+	}
 }
 
 func under(dirOrFile, path string) bool {
@@ -117,6 +128,24 @@ func dirsOf(paths []string) []string {
 		}
 	}
 	return protogen.SortedKeys(set)
+}
+
+// genSrcNoSyntax is genSrc with more files lacking a syntax statement: a proto2 file rendered without
+// its `syntax = "proto2";` line is the same schema, and path selections then regularly demote such a
+// file from target to import.
+func genSrcNoSyntax(t *rapid.T, thorough bool) Src {
+	cfg := protogen.DefaultConfig()
+	cfg.CustomOptions = true
+	if thorough {
+		cfg.MaxFiles, cfg.MaxPackages = 8, 5
+	}
+	ws := protogen.GenWorkspace(t, cfg)
+	for _, f := range ws.AllFiles() {
+		if f.Syntax == protogen.Proto2 && rapid.Bool().Draw(t, "drop-syntax-line") {
+			f.Syntax = protogen.SyntaxUnspecified
+		}
+	}
+	return srcOf(ws)
 }
 
 func genPathSets(t *rapid.T, src Src) ([]string, []string) {
@@ -196,6 +225,9 @@ func (c *PathCase) classify(r *evid.Recorder, targets map[string]bool) {
 	}
 	if len(targets) < len(c.Src.allPaths()) {
 		r.Class(c.Kind + ":strict-subset")
+	}
+	if c.demotedNoSyntax > 0 {
+		r.Class(c.Kind + ":no-syntax-file-demoted-to-import")
 	}
 	// non-trivial: an include directory and an exclude that both intersect (contain files of) one directory
 	for _, p := range c.Paths {
@@ -333,7 +365,7 @@ func runPathsAPI(ctx context.Context, t fataler, r *evid.Recorder, c *PathCase) 
 		name string
 		vs   []fileView
 	}{{"image-level(allow-not-exist)", av}, {"image-level", bv}} {
-		if what, m := compareViews(res, mv, x.vs, cmpOpts{ignoreOrder: true, markersOfTargetsOnly: true}); what != "" {
+		if what, m := compareViews(res, mv, x.vs, cmpOpts{ignoreOrder: true, unusedDepsOfTargetsOnly: true}); what != "" {
 			if what == "harness" {
 				t.Fatalf("harness: %s", m)
 			}
@@ -341,6 +373,7 @@ func runPathsAPI(ctx context.Context, t fataler, r *evid.Recorder, c *PathCase) 
 			return
 		}
 	}
+	c.countDemoted(mv)
 	if strings.Join(pathsOf(mv), ",") == strings.Join(pathsOf(av), ",") {
 		r.Class("paths-api:order-identical")
 	} else {
@@ -354,8 +387,8 @@ func imgA0(img bufimage.Image) bufimage.Image { return img }
 func TestPathsAPI(t *testing.T) {
 	r := evid.R()
 	ctx := context.Background()
-	r.Check(t, r.Scale(800, 20000), 4, func(t *rapid.T) {
-		src, _ := genSrc(t, r.Thorough())
+	r.Check(t, r.Scale(640, 15000), 4, func(t *rapid.T) {
+		src := genSrcNoSyntax(t, r.Thorough())
 		c := &PathCase{Kind: "paths-api", Src: src}
 		c.Paths, c.Exclude = genPathSets(t, src)
 		runPathsAPI(ctx, t, r, c)
@@ -463,7 +496,7 @@ func runPathsCLI(ctx context.Context, t fataler, r *evid.Recorder, c *PathCase) 
 			return
 		}
 	}
-	if what, m := compareViews(res, dv, iv, cmpOpts{ignoreOrder: true, markersOfTargetsOnly: true}); what != "" {
+	if what, m := compareViews(res, dv, iv, cmpOpts{ignoreOrder: true, unusedDepsOfTargetsOnly: true}); what != "" {
 		if what == "harness" {
 			t.Fatalf("harness: %s", m)
 		}
@@ -479,6 +512,7 @@ func runPathsCLI(ctx context.Context, t fataler, r *evid.Recorder, c *PathCase) 
 	} else {
 		r.Class("paths-cli:same-after-reinterpretation")
 	}
+	c.countDemoted(dv)
 	r.Class("paths-cli:image-format:" + format)
 	c.classify(r, targets)
 }
@@ -486,8 +520,8 @@ func runPathsCLI(ctx context.Context, t fataler, r *evid.Recorder, c *PathCase) 
 func TestPathsCLI(t *testing.T) {
 	r := evid.R()
 	ctx := context.Background()
-	r.Check(t, r.Scale(48, 1400), 5, func(t *rapid.T) {
-		src, _ := genSrc(t, false)
+	r.Check(t, r.Scale(48, 1100), 5, func(t *rapid.T) {
+		src := genSrcNoSyntax(t, false)
 		c := &PathCase{Kind: "paths-cli", Src: src}
 		c.Paths, c.Exclude = genPathSets(t, src)
 		c.Image = []string{"binpb", "binpb", "json", "txtpb.gz", "yaml.zst"}[rapid.IntRange(0, 4).Draw(t, "imgformat")]
